@@ -287,8 +287,10 @@ def jobs(tier):
     js = [job_language(), job_pool()]
     for L in ((0, 1, 2, 3) if q else (0, 1, 2, 3, 4, 5)):
         js.append(job_strings(L))
-    tmpl = [('C:maj', True, 1, 1), ('G#:', True, 1, 1), ('A:min7', False, 2, 1)] if q else \
-           [(p, st, a, b) for p in ('C:maj', 'G#:', 'A:min7', 'Eb:sus4', 'D:1', 'F:9', 'B:hdim7') for st in (True, False) for (a, b) in ((1, 1), (2, 1), (1, 2), (2, 2))]
+    # (degrees of three characters reach double accidentals, 'bb7', and accidentals on two-digit degrees, '#11')
+    tmpl = [('C:maj', True, 1, 1), ('G#:', True, 1, 1), ('A:min7', False, 2, 1), ('C:maj', False, 3, 1)] if q else \
+           [(p, st, a, b) for p in ('C:maj', 'G#:', 'A:min7', 'Eb:sus4', 'D:1', 'F:9', 'B:hdim7') for st in (True, False) for (a, b) in ((1, 1), (2, 1), (1, 2), (2, 2))] + \
+           [('C:maj', False, 3, 1), ('D:min', True, 1, 3), ('A:min7', True, 3, 2), ('G#:', False, 2, 3), ('F:9', False, 3, 3)]
     for t in tmpl:
         js.append(job_template(*t))
     return js
